@@ -35,6 +35,12 @@ class Journal(object):
     def getRaftCommitIndex(self):
         raise NotImplementedError
 
+    def setTermAndVote(self, term, votedForNodeId):
+        pass
+
+    def getTermAndVote(self):
+        return 0, None
+
     def onOneSecondTimer(self):
         pass
 
@@ -45,6 +51,13 @@ class MemoryJournal(Journal):
         self.__journal = []
         self.__bytesSize = 0
         self.__lastCommitIndex = 0
+        self.__termAndVote = (0, None)
+
+    def setTermAndVote(self, term, votedForNodeId):
+        self.__termAndVote = (term, votedForNodeId)
+
+    def getTermAndVote(self):
+        return self.__termAndVote
 
     def add(self, command, idx, term):
         self.__journal.append((command, idx, term))
@@ -246,6 +259,17 @@ class FileJournal(Journal):
 
     def getRaftCommitIndex(self):
         return self.__meta.get('raftCommitIndex', 1)
+
+    def setTermAndVote(self, term, votedForNodeId):
+        # Stored at once: the term and the vote must survive a restart,
+        # otherwise a node could vote twice in one term.
+        self.__meta['raftCurrentTerm'] = term
+        self.__meta['votedForNodeId'] = votedForNodeId
+        self.__metaStorer.storeMeta(self.__meta)
+        self.__metaSaved = True
+
+    def getTermAndVote(self):
+        return self.__meta.get('raftCurrentTerm', 0), self.__meta.get('votedForNodeId', None)
 
     def onOneSecondTimer(self):
         if not self.__metaSaved:
